@@ -10,24 +10,47 @@ Lemma cn_remove_ok g i k g' : cn_remove g i k = Ok g' ->
   g' = set_bcn g (fset (bcn g) i (set_del (cn g i) k)).
 Proof. unfold cn_remove. destruct (set_mem k (cn g i)); [|discriminate]. intro H; inversion H; reflexivity. Qed.
 
+(** what [flip_connection] does to the attributes *)
+Lemma flip_block_attrs g j : bn (flip_connection g j) = bn g /\ bv (flip_connection g j) = bv g /\
+  rn (flip_connection g j) = rn g /\ br (flip_connection g j) = br g /\ bc (flip_connection g j) = bc g /\
+  ar (flip_connection g j) = ar g /\ di (flip_connection g j) = di g /\
+  blist (flip_connection g j) = blist g /\ clist (flip_connection g j) = clist g.
+Proof. repeat split; reflexivity. Qed.
+Lemma flip_c0 g j x : c0 (flip_connection g j) x = if Pos.eqb x j then c1 g j else c0 g x.
+Proof. change (c0 (flip_connection g j) x) with (fget 1%positive (fset (cb0 g) j (c1 g j)) x). apply fget_fset. Qed.
+Lemma flip_c1 g j x : c1 (flip_connection g j) x = if Pos.eqb x j then c0 g j else c1 g x.
+Proof. change (c1 (flip_connection g j) x) with (fget 1%positive (fset (cb1 g) j (c0 g j)) x). apply fget_fset. Qed.
+Lemma flip_d0 g j x : d0 (flip_connection g j) x = if Pos.eqb x j then d1 g j else d0 g x.
+Proof. change (d0 (flip_connection g j) x) with (fget [] (fset (cd0 g) j (d1 g j)) x). apply fget_fset. Qed.
+Lemma flip_d1 g j x : d1 (flip_connection g j) x = if Pos.eqb x j then d0 g j else d1 g x.
+Proof. change (d1 (flip_connection g j) x) with (fget [] (fset (cd1 g) j (d0 g j)) x). apply fget_fset. Qed.
+Lemma flip_co g j x : co (flip_connection g j) x = if Pos.eqb x j then neg_tok (co g j) else co g x.
+Proof. change (co (flip_connection g j) x) with (fget [] (fset (ccos g) j (neg_tok (co g j))) x). apply fget_fset. Qed.
+Lemma flip_n1 g j x : n1 (flip_connection g j) x = if Pos.eqb x j then n2 g j else n1 g x.
+Proof. change (n1 (flip_connection g j) x) with (fget [] (fset (cnad1 g) j (n2 g j)) x). apply fget_fset. Qed.
+Lemma flip_n2 g j x : n2 (flip_connection g j) x = if Pos.eqb x j then n1 g j else n2 g x.
+Proof. change (n2 (flip_connection g j) x) with (fget [] (fset (cnad2 g) j (n1 g j)) x). apply fget_fset. Qed.
+
 (** a reversal rewrites only the connection object [j] (and connection_name sets / the dictionary) *)
 Lemma reverse_connection_sig g j orig names g' : reverse_connection g j orig names = Ok g' ->
   (forall i, bsig g' i = bsig g i) /\ csig g' j = swap_sig (csig g j) /\ (forall x, x <> j -> csig g' x = csig g x) /\
   blist g' = blist g /\ clist g' = clist g.
 Proof.
-  unfold reverse_connection. intro H.
+  unfold reverse_connection. cbv zeta. set (F := flip_connection g j). intro H.
   match type of H with context [cn_remove ?G ?i ?kk] => destruct (cn_remove G i kk) as [g2|] eqn:R2 end; cbn [bind] in H; [|discriminate].
   apply cn_remove_ok in R2. subst g2.
   match type of H with context [cn_remove ?G ?i ?kk] => destruct (cn_remove G i kk) as [g4|] eqn:R4 end; cbn [bind] in H; [|discriminate].
   apply cn_remove_ok in R4. subst g4. inversion H; subst g'; clear H.
-  unfold flip_connection.
+  destruct (flip_block_attrs g j) as [Ebn [Ebv [Ern [Ebr [Ebc [Ear [Edi [Ebl Ecl]]]]]]]]. fold F in Ebn, Ebv, Ern, Ebr, Ebc, Ear, Edi, Ebl, Ecl.
   split; [|split; [|split; [|split]]].
-  - intro i. unfold bsig. gs. reflexivity.
-  - unfold csig, swap_sig. cbn [s_n0 s_n1 s_d0 s_d1 s_area s_dir s_cos s_nad0 s_nad1]. gs.
-    rewrite !fget_fset_eq. reflexivity.
-  - intros x N. unfold csig. gs. rewrite !(fget_fset_neq _ _ _ _ _ N). reflexivity.
-  - gs. reflexivity.
-  - gs. reflexivity.
+  - intro i. unfold bsig. gs. rewrite Ebn, Ebv, Ern, Ebr, Ebc. reflexivity.
+  - unfold csig, swap_sig. cbn [s_n0 s_n1 s_d0 s_d1 s_area s_dir s_cos s_nad0 s_nad1]. gs. unfold F.
+    rewrite flip_c0, flip_c1, flip_d0, flip_d1, flip_co, flip_n1, flip_n2, Pos.eqb_refl. fold F. rewrite Ebn, Ear, Edi. reflexivity.
+  - intros x N. unfold csig. gs. unfold F.
+    rewrite flip_c0, flip_c1, flip_d0, flip_d1, flip_co, flip_n1, flip_n2. fold F. rewrite Ebn, Ear, Edi.
+    destruct (Pos.eqb_spec x j); [contradiction|]. reflexivity.
+  - gs. exact Ebl.
+  - gs. exact Ecl.
 Qed.
 
 Lemma reorder_conns_sig ks : forall g g' l, reorder_conns g ks = Ok (g', l) ->
@@ -36,7 +59,7 @@ Lemma reorder_conns_sig ks : forall g g' l, reorder_conns g ks = Ok (g', l) ->
   (NoDup l -> forall x, In x l -> csig g' x = csig g x \/ csig g' x = swap_sig (csig g x)).
 Proof.
   induction ks as [|k r IH]; cbn [reorder_conns]; intros g g' l H.
-  - inversion H; subst. repeat split; auto. intros _ x [].
+  - inversion H; subst. repeat split; auto; try (intros _ x []).
   - destruct (cget g k) as [j|].
     + destruct (reorder_conns g r) as [[g1 l1]|] eqn:E; cbn [bind fst snd] in H; [|discriminate].
       inversion H; subst g' l; clear H. destruct (IH g g1 l1 E) as [Hb [Hbl [Hcl [Hout Hin]]]].
